@@ -9,7 +9,7 @@
    C daemon, bounded latency — is explored by tools/props/c10.py and is NOT claimed
    here. *)
 From DV Require Import Lib.Base Gen.Tables Wire.Message Proofs.LoaderProofs Auth.Types Auth.Server Robust.Bus Robust.Env Robust.Mini Spec.RobustSpec
-  Proofs.RobustBase Proofs.RobustInv Proofs.RobustIso Proofs.RobustRefine Proofs.RobustEnv Proofs.RobustClose.
+  Proofs.RobustBase Proofs.RobustInv Proofs.RobustIso Proofs.RobustRefine Proofs.RobustEnv Proofs.RobustClose Robust.Watch Proofs.RobustWatch.
 Local Open Scope N_scope.
 
 Section Generic.
@@ -197,6 +197,29 @@ Theorem C10_activation_success_only_to_connected : forall (k : mstate) c a m w s
   In (MON, ActOk w s) (snd (fst (mini_dispatch k c a m))) -> In w (m_completed k).
 Proof. exact activation_success_only_to_connected. Qed.
 
+(* 8. "... makes the bus ... spin": the main loop's watch / poll-set logic (refresh_watches_for_fd, the epoll set,
+      the per-descriptor part of _dbus_loop_iterate; model Robust/Watch.v, run against the C by harness/c/robust_h.c).
+      A descriptor on which no watch is enabled — e.g. a connection the bus has stopped reading from
+      (max_incoming_bytes reached) and has nothing to write to — is armed edge-triggered without events: its peer
+      hanging up can end at most ONE iteration early, never a later one, and readable data never wakes the loop. *)
+Theorem C10_no_watch_bounded_wakeup : forall ws ready, existsb active ws = false ->
+  iterate ws ready false = (false, 0) /\
+  (N.land ready (N.lor W_ERROR W_HANGUP) = 0 -> iterate ws ready true = (false, 0)).
+Proof. exact no_watch_bounded_wakeup. Qed.
+
+(*    and whenever a watched descriptor wakes the loop, at least one handler runs on it: every iteration either
+      sleeps, or does work, or is that single spurious wake-up *)
+Theorem C10_no_spin : forall ws ready first,
+  fst (iterate ws ready first) = false \/ 1 <= snd (iterate ws ready first) \/ (first = true /\ existsb active ws = false).
+Proof. exact no_spin. Qed.
+
+(*    the variant that registers an empty level-triggered mask instead (seeded defect C10_4; the comment in
+      socket_set_epoll_disable warns against it) wakes up for ever with no handler to run *)
+Example ex_naive_spins : forall first, iterate_naive [mkWatch false false W_READABLE] (W_READABLE + W_WRITABLE + W_HANGUP) first = (true, 0).
+Proof. intros [|]; vm_compute; reflexivity. Qed.
+Example ex_faithful_sleeps : iterate [mkWatch false false W_READABLE] (W_READABLE + W_WRITABLE + W_HANGUP) false = (false, 0).
+Proof. vm_compute. reflexivity. Qed.
+
 (* loader level (C11): after corruption no message is ever produced again *)
 Theorem C10_loader_nothing_after_corruption : forall l chunks, l_corrupted l = true -> outcome (feed_all l chunks) = outcome l.
 Proof. exact corruption_is_final. Qed.
@@ -223,6 +246,8 @@ Print Assumptions C10_expiry_exact.
 Print Assumptions C10_activation_failure_only_to_connected.
 Print Assumptions C10_no_activation_error_to_departed.
 Print Assumptions C10_activation_success_only_to_connected.
+Print Assumptions C10_no_watch_bounded_wakeup.
+Print Assumptions C10_no_spin.
 Print Assumptions C10_no_error_to_departed.
 
 (* ---- non-vacuity: the extracted instance on a concrete attack ------------------- *)
